@@ -208,10 +208,14 @@ func (evpool *Pool) CheckEvidence(evList types.EvidenceList) error {
 				return err
 			}
 
-			if err := evpool.addPendingEvidence(ev); err != nil {
-				// Something went wrong with adding the evidence but we already know it is valid
-				// hence we log an error and continue
-				evpool.logger.Error("Can't add evidence to pending list", "err", err, "ev", ev)
+			// Light client attack evidence is verified again even when it is already pending
+			// (see above); it must not be added, and counted, a second time.
+			if !evpool.isPending(ev) {
+				if err := evpool.addPendingEvidence(ev); err != nil {
+					// Something went wrong with adding the evidence but we already know it is valid
+					// hence we log an error and continue
+					evpool.logger.Error("Can't add evidence to pending list", "err", err, "ev", ev)
+				}
 			}
 
 			evpool.logger.Info("Check evidence: verified evidence of byzantine behavior", "evidence", ev)
